@@ -10,8 +10,10 @@ package props
 // back as an error; a prefix must give an error or the complete result.
 
 import (
+	"bufio"
 	"bytes"
 	"fmt"
+	"io"
 
 	"seehuhn.de/go/postscript/afm"
 	"seehuhn.de/go/postscript/type1"
@@ -38,7 +40,7 @@ func runC13(r *rt.Runner) {
 				return fmt.Sprintf("%s (%s), %d bytes: %q", kind, it.desc, len(it.data), head(it.data, 2500))
 			})
 			full, fullErr := runEntry(env, kind, bytes.NewReader(it.data))
-			delivered, undelivered := 0, 0
+			delivered, undelivered, wrapped := 0, 0, 0
 			for off := 0; off <= len(it.data); off++ {
 				for _, withData := range []bool{false, true} {
 					if withData && off == 0 {
@@ -47,6 +49,16 @@ func runC13(r *rt.Runner) {
 					fr := &mon.FaultReader{Data: it.data, K: off, WithData: withData}
 					if rng.IntN(4) == 0 {
 						fr.Chunks = randChunks(rng)
+					}
+					// the error value: a plain sentinel, or one that wraps io.EOF /
+					// io.ErrUnexpectedEOF without being it
+					switch rng.IntN(6) {
+					case 0:
+						fr.Err = mon.ErrInjectedWrapsEOF
+						wrapped++
+					case 1:
+						fr.Err = mon.ErrInjectedWrapsUnexpectedEOF
+						wrapped++
 					}
 					_, err := runEntry(env, kind, fr)
 					c.Eval()
@@ -80,7 +92,13 @@ func runC13(r *rt.Runner) {
 				if rng.IntN(4) == 0 {
 					fr.Chunks = randChunks(rng)
 				}
-				_, err := runEntry(env, kind, fr)
+				var src io.Reader = fr
+				if rng.IntN(3) == 0 {
+					// behind a bufio.Reader (an io.ByteReader, too), which hands an
+					// error of its source on once and then reads on
+					src = bufio.NewReaderSize(fr, 16+rng.IntN(600))
+				}
+				_, err := runEntry(env, kind, src)
 				c.Eval()
 				if fr.Delivered {
 					oneShot++
@@ -103,6 +121,7 @@ func runC13(r *rt.Runner) {
 				}
 			}
 			c.Runner().Count("read faults delivered to the library", int64(delivered))
+			c.Runner().Count("read faults whose error wraps io.EOF or io.ErrUnexpectedEOF", int64(wrapped))
 			c.Runner().Count("read faults not reached (library had stopped reading)", int64(undelivered))
 			c.Count("files swept over every read offset: " + kind)
 			// truncation: every prefix (fonts and single-CMap files)
